@@ -100,6 +100,10 @@ pub fn build(tier: Tier) -> Check<'static> {
         c.parts.push(Part::new("macro-shapes-table", sp.len(), "macro shapes: returned table", move |i, acc| pp::check_prog(acc, &sp.get(i), or, "macro shapes")));
     }
     {
+        let sp = pp::directive_body_profile();
+        c.parts.push(Part::new("directive-bodies-table", sp.len(), "macros whose text holds `undef / `undefineall / `define / conditional chains: returned table", move |i, acc| pp::check_prog(acc, &sp.get(i), or, "directive bodies")));
+    }
+    {
         // defines flowing out of included files (real files): define / undef / guard / nested include
         crate::props::c10::enter_cwd("C11");
         let all = crate::props::c10::cases(tier);
